@@ -193,8 +193,13 @@ func (o Op) evalRaw() string {
 // a replay: the implementation does not terminate on that input).
 type evaluator struct {
 	start int64 // unix nanos of the running op, 0 when idle
+	limit int64 // nanos allowed for the running op
 	line  atomic.Value
 }
+
+// progress receives a line before every long-running input so that a crash of the whole process
+// (stack overflow, fatal runtime error) can be attributed to an input.
+var progress = os.Stderr
 
 const callLimit = 5 * time.Second
 
@@ -215,7 +220,7 @@ func newEvaluator() *evaluator {
 				evalMu.Lock()
 				for _, e := range evaluators {
 					st := atomic.LoadInt64(&e.start)
-					if st != 0 && now-st > int64(callLimit) {
+					if st != 0 && now-st > atomic.LoadInt64(&e.limit) {
 						l, _ := e.line.Load().(string)
 						fmt.Printf("STUCK %s\n", l)
 						os.Stdout.Sync()
@@ -229,9 +234,25 @@ func newEvaluator() *evaluator {
 	return e
 }
 
+// begin/end bracket an arbitrary piece of work on input s for the watchdog.
+func (e *evaluator) begin(s string) { e.beginLimit(s, callLimit) }
+
+func (e *evaluator) beginLimit(s string, limit time.Duration) {
+	if len(s) > 4096 {
+		e.line.Store(fmt.Sprintf("input-long len=%d prefix=%s", len(s), hx(s[:64])))
+	} else {
+		e.line.Store("input " + hx(s))
+	}
+	atomic.StoreInt64(&e.limit, int64(limit))
+	atomic.StoreInt64(&e.start, time.Now().UnixNano())
+}
+
+func (e *evaluator) end() { atomic.StoreInt64(&e.start, 0) }
+
 // Eval evaluates one operation on the real package.
 func (e *evaluator) Eval(o Op, line string) string {
 	e.line.Store(line)
+	atomic.StoreInt64(&e.limit, int64(callLimit))
 	atomic.StoreInt64(&e.start, time.Now().UnixNano())
 	r := o.evalRaw()
 	atomic.StoreInt64(&e.start, 0)
